@@ -139,6 +139,8 @@ pub fn run_check(id: &str, tier: Tier) -> i32 {
         eprintln!("MACHINERY: watchdog: check did not finish within {} s", budget);
         std::process::exit(2);
     });
+    // a poll of library code that never returns is a violation, found by a monitor thread
+    pvcore::hang::start_monitor();
     let mut total = Stats::default();
     let mut parts_json = vec![];
     let t0 = std::time::Instant::now();
@@ -151,6 +153,11 @@ pub fn run_check(id: &str, tier: Tier) -> i32 {
             }
         }
         let sc = scenario_by_name(&p.scenario, &p.params);
+        {
+            let mut pp = p.params.clone();
+            pp["dev_budget"] = json!(p.dev_budget);
+            pvcore::hang::set_context(chk.property, &p.scenario, &pp);
+        }
         let mut lim = Limits::new(p.dev_budget, p.wall_s, tier == Tier::Quick);
         lim.known = load_findings()
             .into_iter()
@@ -197,6 +204,7 @@ pub fn run_check(id: &str, tier: Tier) -> i32 {
                 match out {
                     Ok(o) => {
                         let text = String::from_utf8_lossy(&o.stdout).to_string();
+                        let hang = text.contains("/hang-in-poll");
                         for l in text.lines() {
                             if let Some(j) = l.strip_prefix("CHILD-SUMMARY ") {
                                 rel_summary = serde_json::from_str(j).unwrap_or(json!(null));
@@ -208,6 +216,10 @@ pub fn run_check(id: &str, tier: Tier) -> i32 {
                         }
                         eprint!("{}", String::from_utf8_lossy(&o.stderr).replace("[C", "[rel C"));
                         child_code = o.status.code().unwrap_or(2);
+                        if hang && child_code == 1 {
+                            // the child stopped at once (a poll that never returns): no summary
+                            rel_summary = json!({"stopped": "hang-in-poll"});
+                        }
                         if rel_summary.is_null() || child_code >= 2 {
                             eprintln!("MACHINERY: the wrapping-arithmetic child run failed (exit {:?})", o.status);
                             std::process::exit(2);
